@@ -16,7 +16,8 @@ def L(items, ty=None):
 THEOREMS = ['C01_predictions_spec', 'C01_nullable_spec', 'C01_chart_is_language', 'C01_alg_sound', 'C01_alg_complete', 'C01_basic_trace',
             'C01_fuel_suffices', 'C01_basic', 'C01_general', 'C01_example',
             'C01_dynamic_ends', 'C01_dynamic_trace', 'C01_dynamic_fuel', 'C01_dynamic_sound', 'C01_dynamic_complete',
-            'C01_dynamic_strings', 'C01_dynamic_example']
+            'C01_dynamic_strings', 'C01_dynamic_example', 'C01_distribute_language', 'C01_distribute_nodup',
+            'C01_distribute_example']
 GEN_DEPS = []
 RULE = ('random CFGs (<=5 non-terminals, <=4 single-character terminals, <=3 alternatives of length <=3; nullable '
         'alternatives, left/right/middle recursion, unit cycles, ambiguity, useless rules; optionally EBNF operators) '
@@ -49,8 +50,10 @@ TRUSTED_BASE = ['hand model Earley/Alg.v of earley.Parser.predict_and_complete/s
                 'hand model Earley/Dyn.v of xearley.Parser._parse/scan (tied by per-column item sets, delayed_matches keys '
                 'and outcome on recorded regex answers); the regex engine itself is an oracle (rmatch/rtrunc) - its answers '
                 'are recorded, not modelled; hypothesis fwd (no empty match) is lark\'s construction-time zero-width check',
-                'the grammar-of-grammars front end and EBNF->BNF compilation are not modelled (compiled rules are read '
-                'back from lark)']
+                'the grammar-of-grammars front end and the operator expansion of EBNF_to_BNF are not modelled (compiled rules '
+                'are read back from lark; C09 owns the operators); group distribution / flattening / duplicate removal '
+                '(SimplifyRule_Visitor) is modelled at set level by Cfg/AnalysisDistribute.flat and tied on the rule bodies of '
+                'the construct stream']
 ASSUMPTIONS = ['terminals of the main streams are distinct single-character strings, so the basic lexer\'s token string '
                'is the character string', 'SPPF construction does not influence item creation (not modelled)']
 IMPORTS = 'From LV Require Import Cfg.Grammar Cfg.Analysis Earley.Spec Earley.Alg Earley.AlgCheck.'
@@ -949,7 +952,7 @@ def run_dyn_coq(ctx, cases, meta):
 # ---------------------------------------------------------------------------------------------
 # construct stream: EBNF-level source grammars; expectation (documented GrammarError or not) and language from the
 # independent expander props/ebnf_source_gen.py
-def check_source_grammar(ctx, rng, g, maxlen, origin):
+def check_source_grammar(ctx, rng, g, maxlen, origin, dist_cases=None, dist_seen=None):
     from props import ebnf_source_gen as esg
     gtext = esg.render(g)
     exp = esg.Expander(g)
@@ -957,7 +960,18 @@ def check_source_grammar(ctx, rng, g, maxlen, origin):
     expected = 'GrammarError' if coll else 'ok'
     larks = {}
     for lexer in LEXERS:
-        st, obj = build(gtext, lexer, 'forest')
+        _DIST['on'] = dist_cases is not None and lexer == 'basic'
+        del _DIST['log'][:]
+        try:
+            st, obj = build(gtext, lexer, 'forest')
+        finally:
+            _DIST['on'] = False
+        if dist_cases is not None and lexer == 'basic':
+            for before, after in _DIST['log']:
+                term = dist_case(before, after)
+                if term is not None and term not in dist_seen:
+                    dist_seen.add(term)
+                    dist_cases.append((term, gtext))
         ctx.count('construct:build', key=(gtext, lexer), nontrivial=True, construct=st, expected_construct=expected,
                   origin=origin)
         w = {'grammar': gtext, 'lexer': lexer, 'ambiguity': 'forest', 'mode': 'construct-source',
@@ -1013,19 +1027,102 @@ def check_source_grammar(ctx, rng, g, maxlen, origin):
             break
 
 
-def run_construct_stream(ctx, wide):
+def run_construct_stream(ctx, wide, dist_cases=None):
     """seed independent: a fixed corpus and a random family drawn from a fixed generator seed"""
     import random
     from props import ebnf_source_gen as esg
     rng = random.Random(20240923)
     maxlen = ctx.scale(4, 5)
+    seen = set()
+    if dist_cases is not None:
+        patch_simplify()
     for g in esg.CORPUS:
-        check_source_grammar(ctx, rng, g, maxlen, 'corpus')
+        check_source_grammar(ctx, rng, g, maxlen, 'corpus', dist_cases, seen)
     for _ in range(ctx.scale(45, 500) * wide):
-        check_source_grammar(ctx, rng, esg.gen_source_grammar(rng), maxlen, 'random')
+        check_source_grammar(ctx, rng, esg.gen_source_grammar(rng), maxlen, 'random', dist_cases, seen)
     ctx.sample({'stream': 'construct', 'grammar': esg.render(esg.CORPUS[0]),
                 'expander': [(n, [[str(x[1]) if x != esg.MARK else '<None>' for x in s] for s in seqs])
                              for n, seqs in esg.Expander(esg.CORPUS[0]).flat.items()]})
+
+
+# ---------------------------------------------------------------------------------------------
+# SimplifyRule_Visitor against Cfg/AnalysisDistribute.flat: the rule body before the visitor (groups still nested) and
+# the alternatives after it, captured at the outermost visit() calls of Grammar.compile
+DIST_IMPORTS = 'From LV Require Import Cfg.Grammar Cfg.AnalysisDistribute.'
+_DIST = {'on': False, 'depth': 0, 'log': []}
+
+
+def patch_simplify():
+    from lark import load_grammar as lg
+    if getattr(lg.SimplifyRule_Visitor.visit, '_lv', False):
+        return
+    orig = lg.SimplifyRule_Visitor.visit
+
+    def visit(self, tree):
+        if not _DIST['on'] or _DIST['depth'] > 0:
+            return orig(self, tree)
+        import copy
+        before = copy.deepcopy(tree)
+        _DIST['depth'] += 1
+        try:
+            r = orig(self, tree)
+        finally:
+            _DIST['depth'] -= 1
+        _DIST['log'].append((before, tree))
+        return r
+    visit._lv = True
+    lg.SimplifyRule_Visitor.visit = visit
+
+
+def dist_case(before, after):
+    """Coq term (gexp, observed alternatives) or None when the rule uses something outside the model (aliases)"""
+    from lark.tree import Tree
+    from lark.grammar import Symbol
+    ids = {}
+
+    def sym(s):
+        key = (s.is_term, s.name)
+        if key not in ids:
+            ids[key] = len(ids)
+        return '%s %d' % ('T' if s.is_term else 'NT', ids[key])
+
+    def conv(t):
+        if isinstance(t, Tree):
+            if t.data == 'expansions':
+                return 'GAlt %s' % L(['(%s)' % conv(c) for c in t.children], 'gexp')
+            if t.data == 'expansion':
+                return 'GSeq %s' % L(['(%s)' % conv(c) for c in t.children], 'gexp')
+            raise ValueError(t.data)
+        if isinstance(t, Symbol):
+            return 'GSym (%s)' % sym(t)
+        raise ValueError(type(t).__name__)
+    try:
+        e = conv(before)
+        if not (isinstance(after, Tree) and after.data == 'expansions'):
+            return None
+        obs = []
+        for alt in after.children:
+            if not (isinstance(alt, Tree) and alt.data == 'expansion' and all(isinstance(x, Symbol) for x in alt.children)):
+                return None
+            obs.append(L([sym(x) for x in alt.children], 'symbol'))
+        return '(%s, %s)' % (e, L(obs, '(list symbol)'))
+    except ValueError:
+        return None
+
+
+def run_dist_coq(ctx, cases):
+    what = 'Cfg/AnalysisDistribute.flat vs load_grammar.SimplifyRule_Visitor (flat alternatives of every rule body, as a duplicate-free set)'
+    if not cases:
+        return
+    terms = [c[0] for c in cases]
+    bad, errs = ctx.coq_bad_indices('c01dist', DIST_IMPORTS, 'distribute_check', terms, chunk=35)
+    for e in errs:
+        ctx.violation('correspondence:coq-eval', {'no_longer_checks': what, 'error': e}, False, e[:300])
+    for i in bad[:10]:
+        ctx.violation('correspondence:' + what, {'no_longer_checks': what, 'grammar': cases[i][1], 'mode': 'construct-source',
+                                                 'expected_construct': 'ok'}, False,
+                      'the alternatives lark compiled for a rule of %r differ from distribution + dedup of its body' % cases[i][1])
+    ctx.extra['distribute_cases_checked_in_coq'] = len(terms)
 
 
 def correspond(ctx):
@@ -1056,17 +1153,20 @@ def correspond(ctx):
         check_grammar(ctx, rng, render(rng, names, chars, g), 'ignore', cases, meta, seen, n_exh // 2, n_extra,
                       ignore=True)
     run_text_streams(ctx, rng, wide)
-    run_construct_stream(ctx, wide)
+    dist_cases = []
+    run_construct_stream(ctx, wide, dist_cases)
     run_dyn_stream(ctx, rng, wide, cases, meta)
     ctx.extra['lark_seconds'] = round(time.time() - t0, 1)
     run_exotic(ctx)
     t1 = time.time()
     from concurrent.futures import ThreadPoolExecutor
-    with ThreadPoolExecutor(max_workers=2) as ex:      # the two model comparisons are independent
+    with ThreadPoolExecutor(max_workers=3) as ex:      # the two model comparisons are independent
         f1 = ex.submit(run_coq, ctx, cases, meta)
         f2 = ex.submit(run_dyn_coq, ctx, cases, meta)
+        f3 = ex.submit(run_dist_coq, ctx, dist_cases)
         f1.result()
         f2.result()
+        f3.result()
     ctx.extra['coq_seconds'] = round(time.time() - t1, 1)
 
 
